@@ -81,7 +81,9 @@ def _translate(out, op, fst, word, ref=None, scale=None):
     b = LineBudget(budget)
     try:
         with b:
-            res = out.call(op, lambda: [tuple(o) for o in fst.translate(list(word))])
+            # the input word as a list, a tuple or a one-shot iterator (`input_word : iterable of any`)
+            wform = (list, tuple, lambda x: iter(list(x)))[len(word) % 3]
+            res = out.call(op, lambda: [tuple(o) for o in fst.translate(wform(word))])
         out.lines += b.used
         return res
     except BudgetExceeded:
